@@ -277,6 +277,6 @@ def NoStabPanic (a : Action) (r : Except Panic (String × Array Nat)) : Prop :=
 theorem Run.obsWF {env : Env} {s s' : State} (h : Run env NoStabPanic s s') (hw : ObsWF s) :
     ObsWF s' :=
   Run.invariant ObsWF (fun a tokens s r s' hp hi hrun => ObsWF.step env a tokens s s' r hi hp hrun)
-    (fun s hi => ObsWF.of_same (s := s) (ObsLocal.of_eq _ _ rfl rfl rfl) hi) h hw
+    (fun s hi => ObsWF.of_states (s := s) (fun _ => rfl) rfl rfl hi) h hw
 
 end IncrVerif.Proofs.Life
